@@ -28,7 +28,8 @@ PLAN = {
     "C11": {"level": "exploration", "units": [unit("cfgh", "TestC11", 600, 10000, replay="TestReplayC11", shrinktime="30s")]},
     "C12": {"level": "exploration", "units": [
         unit("side", "TestC12", 1000, 6000, replay="TestReplayC12"),
-        unit("side", "TestC12Concurrent", 100, 1500, seed_off=400)]},
+        unit("side", "TestC12Concurrent", 100, 1500, seed_off=400),
+        {"pkg": "side", "test": "FuzzC12", "kind": "fuzz", "fuzztime": {"thorough": "180s"}, "checks": {"quick": 0, "thorough": 0}, "replay": None}]},
     "C13": {"level": "fault_enumeration", "units": [unit("side", "TestC13", 250, 3000, replay="TestReplayC13")]},
     "C14": {"level": "exploration", "units": [unit("side", "TestC14", 1000, 15000, replay="TestReplayC14")]},
     "C15": {"level": "exploration", "units": [
